@@ -30,6 +30,8 @@ def gen_handler(rng, allow_setsleep=True):
         return {"kind": "none"}
     if r < 0.88:
         return {"kind": "raise"}
+    if r < 0.94 and allow_setsleep:
+        return {"kind": "register", "cmd": rng.choice(sorted(COMMANDS)), "new": gen_handler(rng, allow_setsleep=False)}
     if allow_setsleep:
         return {"kind": "setsleep", "sleeptime": rng.choice([500, 2000, 30000]), "jitter": rng.choice([0, 20, 90])}
     return {"kind": "none"}
